@@ -31,7 +31,8 @@ EXPLANATION = (
 ASSUMPTIONS = ["std::countl_zero / bit tricks behave per the standard", "the combiner graph is associative as the operator requires"]
 DECIDED = ["a zero contract", "b deepest-first single pass", "b2 candidate selection", "b' teardown order", "c generation hand-over",
            "d stop (shared C14.f)", "e zero flag is what was wired",
-           'f2 leaf containers are reset and shrunk together', 'j full reconcile registers one leaf per current key (slot_live)']
+           'f2 leaf containers are reset and shrunk together', 'j full reconcile registers one leaf per current key (slot_live)',
+           'k bitmap positions use bits_per_word', 'l structural_leaves holds dense indices']
 NOT_DECIDED = ["tree equals fold for every history", "order independence", "reconcile_leaf_state / rebuild_structure arithmetic"]
 
 
